@@ -3,6 +3,7 @@ import VDriver.Util
 import VModel.Auth
 import VModel.AuthSpec
 import VModel.AuthRules
+import VModel.AuthQuerier
 namespace V.Driver.AuthOps
 open V V.Json V.Driver V.Auth
 
@@ -39,6 +40,17 @@ def handle (op : String) (args : Array String) : Option String :=
         | some true => some (m ++ "\trej")
         | _ => some (m ++ "\t" ++ spec)
       else some (m ++ "\t" ++ spec)
+    | _, _ => some "bad-op"
+  -- the same check asked with the querier that answers (nil, nil) for a sender that is not a user ID (C18 / C07, defect
+  -- P2).  Specification: the rules' verdict — they refuse an event whose sender is no user ID, whatever the querier
+  | "allowed_nilq", ver :: sig :: ev :: auth =>
+    let v := strBytes ver
+    match parseEvArg v ev, parseEvArgs v auth with
+    | some e, some as =>
+      let prov := Provider.ofEvents as
+      let m := (allowedFreshNilQ e prov (sig == "1")).coarse
+      let spec := AuthRules.showVerdict (AuthRules.rulesAllow AuthRules.Departures.library e prov (sig == "1"))
+      some (m ++ "\t" ++ spec)
     | _, _ => some "bad-op"
   | _, _ => none
 
